@@ -9,6 +9,9 @@ void h_floor1_inverse2(void) {
   vorbis_info_floor1 *info = malloc(sizeof *info);
   look->vi = info;
   __CPROVER_assume(look->posts >= 2 && look->posts <= VIF_POSIT + 2 && info->mult >= 1 && info->mult <= 4);
+#ifdef H_MAXPOSTS
+  __CPROVER_assume(look->posts <= H_MAXPOSTS);
+#endif
   for (int j = 0; j < VIF_POSIT + 2; j++) {
     if (j < look->posts) {
       __CPROVER_assume(look->forward_index[j] >= 0 && look->forward_index[j] < look->posts);
